@@ -187,6 +187,26 @@ fn run(ctx: &Ctx) {
     ctx.run_indexed("corpus-x-all-configs", corpus.len() as u64 * 128, |i| Some(Case { input: B(corpus[(i / 128) as usize].1.clone()), cfg: (i % 128) as u8, source: ((i / 128) % 2) as u8 }), check);
     let strat = (gen::soup_strategy(16), 0u8..128, 0u8..3).prop_map(|(input, cfg, source)| Case { input: B(input), cfg, source });
     ctx.run_proptest("soup", ctx.tier.pick(1_000_000, 8_000_000), strat, check);
+    // offset and length sweep, large inputs (see gen.rs) x four rotated combinations x three sources
+    let (pmax, qmax, vars) = ctx.tier.pick((130u64, 70u64, 1u64), (260, 140, 2));
+    ctx.run_indexed(
+        "offset-and-length-sweep",
+        gen::sweep_count(pmax, qmax, vars) * 4,
+        |i| {
+            let mut r = SplitMix64::derive(seed, "c16-sweep", i);
+            Some(Case { input: B(gen::sweep_nth(i / 4, pmax, qmax, vars)), cfg: (((i % 4) * 32) as u8).wrapping_add((r.next() % 32) as u8) & 127, source: (r.next() % 3) as u8 })
+        },
+        check,
+    );
+    ctx.run_indexed(
+        "large-inputs",
+        gen::big_count() * 6,
+        |i| {
+            let mut r = SplitMix64::derive(seed, "c16-big", i);
+            Some(Case { input: B(gen::big_nth(i / 6)), cfg: (r.next() & 127) as u8, source: ((i % 6) / 3) as u8 })
+        },
+        check,
+    );
 }
 
 fn replay(_stage: &str, case: &Value) -> Result<Verdict, String> {
